@@ -1008,6 +1008,9 @@ def inline_unnamed_helpers(fb, rounds=2):
         if short in vocab or short.startswith("operator") or short.startswith("~"):
             return False
         local = "(anon-ns)" in g.name or g.raw.get("access") in ("private", "protected") or (not g.rec and g.raw.get("static"))
+        rt = g.raw.get("rett") or {}
+        if rt.get("k") == "ptr" and rt.get("prec") and any(z.get("null") for z in g.nodes()):
+            return False  # a finder (`T* find(id)`: the element's address or null): read by the container rules as a function of its own
         return bool(local)
     n = 0
     for _ in range(rounds):
